@@ -220,6 +220,11 @@ def gen_rejection_kw(rnd, N, path, logprobs=0.0, all_logprobs=0.0, nl_max=4):
     if rnd.random() < 0.5:
         kw["max_posterior_samples"] = rnd.choice([1, 1, 2, 3, rnd.randint(1, N + 2)])
     kw["n_linear_samples"] = rnd.choice([1, 1, 1, 2, 3, nl_max])
+    if rnd.random() < 0.04 and nl_max >= 4:
+        # rarely a LARGE number of linear draws per sample (tens of thousands of output rows): block-wise generation
+        # of the output must not lose a trailing partial block
+        kw["n_linear_samples"] = rnd.choice([1500, 4096, 20000])
+        kw["max_posterior_samples"] = rnd.randint(3, 40)
     if rnd.random() < 0.5:
         kw["randomize_prior_order"] = True
     if rnd.random() < logprobs:
@@ -247,6 +252,9 @@ def gen_iterative_kw(rnd, N, path, logprobs=0.0):
     if rnd.random() < 0.5:
         kw["max_prior_samples"] = rnd.choice([rnd.randint(1, N), N, N + rnd.randint(1, 5), max(1, N // 2)])
     kw["n_linear_samples"] = rnd.choice([1, 1, 2, 3])
+    if rnd.random() < 0.05:
+        kw["n_linear_samples"] = rnd.choice([1500, 4096, 20000])  # see gen_rejection_kw
+        kw["n_requested_samples"] = rnd.randint(3, 40)
     if rnd.random() < 0.5:
         kw["randomize_prior_order"] = True
     if rnd.random() < logprobs:
